@@ -537,6 +537,17 @@ class FnTrans:
                     # unsigned subtraction wraps in C++, Nat subtraction truncates: equal iff there is no wrap-around (an obligation)
                     return "(%s - %s)" % (a, b), ta, self.conj(pa, pb, "decide (%s ≤ %s)" % (b, a))
                 return "(%s %s %s)" % (a, op, b), ta, self.conj(pa, pb)
+            if op in ("|", "&") and ta == "Int" and tb == "Int":
+                # bool & bool / bool | bool: both operands are bools promoted to int (0/1), so the bitwise operator is the logical one
+                def unbool(x):
+                    while x.get("kind") in ("ParenExpr",): x = x["inner"][0]
+                    if x.get("kind") == "ImplicitCastExpr" and x.get("castKind") == "IntegralCast":
+                        t_, ty_, p_ = self.expr(x["inner"][0], env)
+                        if ty_ == "Bool": return t_, p_
+                    return None
+                ua, ub = unbool(inner[0]), unbool(inner[1])
+                if ua is not None and ub is not None:
+                    return "(if (%s %s %s) then (1 : Int) else 0)" % (ua[0], "&&" if op == "&" else "||", ub[0]), "Int", self.conj(ua[1], ub[1])
             if op in ("|", "&"):
                 if ta != "Nat" or tb != "Nat": raise Unsupported("%s: bit operator on %s" % (self.name, ta))
                 return "(%s %s %s)" % (a, {"|": "|||", "&": "&&&"}[op], b), "Nat", self.conj(pa, pb)
